@@ -13,9 +13,15 @@
 //!
 //! Calling forms (`lay=` / `qlay=` / `form=` in the request; the model sees the logical values only):
 //!   batch  `c` owned C-order `Array2`, `f` owned Fortran-order `Array2`, `strided` an `ArrayView2` with
-//!          stride 2 on both axes cut out of a larger array, `t` the transposed view of a `(d, n)` array;
-//!   query  `c` contiguous `Array1` view, `strided` a column of a `(d, 2)` matrix;
-//!   build  `leaf` = `from_batch_with_leaf_size`, `default` = `from_batch` (leaf size 2^4).
+//!          stride 2 on both axes cut out of a larger array, `t` the transposed view of a `(d, n)` array,
+//!          `rev` a view with NEGATIVE strides on both axes (`slice(s![..;-1, ..;-1])` of the mirrored array:
+//!          contiguous in memory order, reversed in logical order);
+//!   query  `c` contiguous `Array1` view, `strided` a column of a `(d, 2)` matrix, `rev` a stride -1 view;
+//!   build  `leaf` = `from_batch_with_leaf_size`, `default` = `from_batch` (leaf size 2^4);
+//!   `pre=<j>`  the compared query is the (j+1)-th query on ONE index: j warm-up queries (other points, other
+//!          k / radius) are issued on the same index first (an index that carries state between queries shows).
+//! `default` op: the leaf size the provided method `NearestNeighbour::from_batch` passes on (read through a
+//! probe implementation of the trait), against the model's `defaultLeaf`.
 use crate::util::*;
 use linfa_nn::distance::{Distance, L1Dist, L2Dist, LInfDist, LpDist};
 use linfa_nn::{BallTreeIndex, BuildError, CommonNearestNeighbour, NearestNeighbour, NnError};
@@ -133,6 +139,23 @@ impl Kind {
 }
 const KINDS: [Kind; 3] = [Kind::Linear, Kind::Kd, Kind::Ball];
 
+/// memory layout of the query point
+#[derive(Clone, Copy, Debug, PartialEq)]
+enum QLay {
+    C,
+    Strided,
+    Rev,
+}
+impl QLay {
+    fn name(&self) -> &'static str {
+        match self {
+            QLay::C => "c",
+            QLay::Strided => "strided",
+            QLay::Rev => "rev",
+        }
+    }
+}
+
 /// memory layout / calling form of the batch
 #[derive(Clone, Copy, Debug, PartialEq)]
 enum Lay {
@@ -140,6 +163,7 @@ enum Lay {
     F,
     Strided,
     T,
+    Rev,
 }
 impl Lay {
     fn name(&self) -> &'static str {
@@ -148,6 +172,7 @@ impl Lay {
             Lay::F => "f",
             Lay::Strided => "strided",
             Lay::T => "t",
+            Lay::Rev => "rev",
         }
     }
 }
@@ -185,6 +210,14 @@ macro_rules! with_batch {
                 let $b = &view;
                 $body
             }
+            Lay::Rev => {
+                // the mirrored array seen through negative strides: same logical values, rows and
+                // coordinates run backwards in memory (contiguous in memory order, not in logical order)
+                let store: Array2<$F> = Array2::from_shape_fn((n, d), |(i, j)| pts[(n - 1 - i, d - 1 - j)]);
+                let view = store.slice(s![..;-1, ..;-1]);
+                let $b = &view;
+                $body
+            }
         }
     }};
 }
@@ -205,7 +238,17 @@ fn own_dist(met: Met, a: &[f64], b: &[f64]) -> f64 {
             }
         }
         Met::Linf => a.iter().zip(b).map(|(x, y)| (x - y).abs()).fold(0.0, f64::max),
-        Met::Lp(p) => a.iter().zip(b).map(|(x, y)| (x - y).abs().powf(p)).sum::<f64>().powf(1.0 / p),
+        Met::Lp(p) => {
+            // the plain formula (the one the implementation uses) wherever the sum of powers is a finite
+            // normal number; scaled by the largest difference otherwise (edge stream only)
+            let sum = a.iter().zip(b).map(|(x, y)| (x - y).abs().powf(p)).sum::<f64>();
+            let m = a.iter().zip(b).map(|(x, y)| (x - y).abs()).fold(0.0, f64::max);
+            if (sum.is_finite() && sum > 1e-280) || m == 0.0 || !m.is_finite() {
+                sum.powf(1.0 / p)
+            } else {
+                m * a.iter().zip(b).map(|(x, y)| ((x - y).abs() / m).powf(p)).sum::<f64>().powf(1.0 / p)
+            }
+        }
     }
 }
 
@@ -223,6 +266,8 @@ struct Setup<F: Sc> {
     lay: Lay,
     /// `from_batch` (default leaf size) instead of `from_batch_with_leaf_size`
     default_form: bool,
+    /// number of warm-up queries issued on the same index before the compared one
+    pre: usize,
 }
 
 impl<F: Sc> Setup<F> {
@@ -234,7 +279,7 @@ impl<F: Sc> Setup<F> {
     }
     fn head(&self) -> String {
         let rows: Vec<Vec<F>> = self.pts.rows().into_iter().map(|r| r.to_vec()).collect();
-        format!("ty={} metric={} p={} ncols={} leaf={} lay={} form={} pts={}", F::TY, self.met.name(), F::from64(self.met.p()).hx(), self.ncols(), self.leaf, self.lay.name(), if self.default_form { "default" } else { "leaf" }, list2(rows.iter().map(|r| r.iter().copied()), |x: F| x.hx()))
+        format!("ty={} metric={} p={} ncols={} leaf={} lay={} form={} pre={} pts={}", F::TY, self.met.name(), F::from64(self.met.p()).hx(), self.ncols(), self.leaf, self.lay.name(), if self.default_form { "default" } else { "leaf" }, self.pre, list2(rows.iter().map(|r| r.iter().copied()), |x: F| x.hx()))
     }
     fn buildable(&self) -> bool {
         self.leaf >= 1 && self.ncols() >= 1
@@ -318,11 +363,16 @@ enum Q<F> {
 type Answer = Result<Vec<(Vec<u64>, Vec<f64>, usize)>, String>; // (bits as u64, widened coords, pos)
 
 /// run the real index on one physical form of the batch
-fn run_on<F: Sc, DT: Data<Elem = F>>(batch: &ArrayBase<DT, Ix2>, s: &Setup<F>, kind: Kind, q: &[F], qstrided: bool, what: Q<F>) -> (Answer, Vec<F>, Vec<F>, F) {
+fn run_on<F: Sc, DT: Data<Elem = F>>(batch: &ArrayBase<DT, Ix2>, s: &Setup<F>, kind: Kind, q: &[F], ql: QLay, what: Q<F>) -> (Answer, Vec<F>, Vec<F>, F) {
     // returns answer, reduced distances of the returned points, reduced distances of all rows, toR(r)
     let qa = Array1::from(q.to_vec());
     let qm: Array2<F> = Array2::from_shape_fn((q.len(), 2), |(i, j)| if j == 1 { q[i] } else { F::from64(SENTINEL) });
-    let qv: ArrayView1<F> = if qstrided { qm.column(1) } else { qa.view() };
+    let qrev: Array1<F> = Array1::from(q.iter().rev().copied().collect::<Vec<F>>());
+    let qv: ArrayView1<F> = match ql {
+        QLay::C => qa.view(),
+        QLay::Strided => qm.column(1),
+        QLay::Rev => qrev.slice(s![..;-1]),
+    };
     with_metric!(s.met, F, d => {
         let all_rd: Vec<F> = if q.len() == s.ncols() && s.ncols() > 0 { s.pts.rows().into_iter().map(|r| d.rdistance(qa.view(), r)).collect() } else { vec![] };
         let rr = match what { Q::Range(r) => d.dist_to_rdist(r), _ => F::zero() };
@@ -332,6 +382,18 @@ fn run_on<F: Sc, DT: Data<Elem = F>>(batch: &ArrayBase<DT, Ix2>, s: &Setup<F>, k
             Err(BuildError::EmptyLeaf) => return (Err("err EmptyLeaf".into()), vec![], all_rd, rr),
             Err(BuildError::ZeroDimension) => return (Err("err ZeroDimension".into()), vec![], all_rd, rr),
         };
+        // warm-up queries on the SAME index (other points, other and the same k / radius): an index that
+        // carried state from one query to the next (a cache keyed on k, a lazily built structure) would
+        // answer the compared query differently from a fresh index
+        for j in 0..s.pre {
+            let wp: Array1<F> = if s.n() > 0 { s.pts.row(j % s.n()).to_owned() } else { qa.clone() };
+            let _ = ix.k_nearest(wp.view(), j + 1);
+            let _ = ix.within_range(wp.view(), F::one());
+            match what {
+                Q::Knn(k) => drop(ix.k_nearest(wp.view(), k)),
+                Q::Range(r) => drop(ix.within_range(wp.view(), r)),
+            }
+        }
         let res = match what {
             Q::Knn(k) => ix.k_nearest(qv, k),
             Q::Range(r) => ix.within_range(qv, r),
@@ -348,13 +410,14 @@ fn run_on<F: Sc, DT: Data<Elem = F>>(batch: &ArrayBase<DT, Ix2>, s: &Setup<F>, k
 }
 
 /// run the real index; returns `Err("err …")` for reported errors
-fn run_real<F: Sc>(s: &Setup<F>, kind: Kind, q: &[F], qstrided: bool, what: Q<F>) -> (Answer, Vec<F>, Vec<F>, F) {
-    with_batch!(&s.pts, s.lay, F, b => run_on(b, s, kind, q, qstrided, what))
+fn run_real<F: Sc>(s: &Setup<F>, kind: Kind, q: &[F], ql: QLay, what: Q<F>) -> (Answer, Vec<F>, Vec<F>, F) {
+    with_batch!(&s.pts, s.lay, F, b => run_on(b, s, kind, q, ql, what))
 }
 
-fn query_case<F: Sc>(em: &mut Em, s: &Setup<F>, kind: Kind, q: &[F], qstrided: bool, what: Q<F>, script: &Option<String>) {
+fn query_case<F: Sc>(em: &mut Em, s: &Setup<F>, kind: Kind, q: &[F], ql: QLay, what: Q<F>, script: &Option<String>) {
     let n = s.n();
-    let ql = if qstrided { "strided" } else { "c" };
+    let qlay = ql;
+    let ql = qlay.name();
     let mut op = match what {
         Q::Knn(k) => format!("knn {} kind={} qlay={} q={} k={}", s.head(), kind.name(), ql, list(q.iter().copied(), |x: F| x.hx()), k),
         Q::Range(r) => format!("range {} kind={} qlay={} q={} r={}", s.head(), kind.name(), ql, list(q.iter().copied(), |x: F| x.hx()), r.hx()),
@@ -397,7 +460,7 @@ fn query_case<F: Sc>(em: &mut Em, s: &Setup<F>, kind: Kind, q: &[F], qstrided: b
     let cls = class.clone();
     let before = em.outs.len();
     em.case_valid(op, &class, move |ctx| {
-        let (ans, rds, all_rd, rr) = run_real(s, kind, q, qstrided, what);
+        let (ans, rds, all_rd, rr) = run_real(s, kind, q, qlay, what);
         let out = match ans {
             Err(e) => {
                 ctx.require(!well_formed, "no_error_on_valid", &cls, || format!("well-formed build/query answered {}", e));
@@ -434,6 +497,13 @@ fn query_case<F: Sc>(em: &mut Em, s: &Setup<F>, kind: Kind, q: &[F], qstrided: b
         }
         let own_out: Vec<f64> = out.iter().filter(|(_, _, p)| *p < n).map(|(_, _, p)| own_all[*p]).collect();
         let close = |a: f64, b: f64| (a - b).abs() <= s.tol * a.abs().max(b.abs());
+        // open finding C07-balltree-ulp-pruning: the ball tree may miss a point within a rounding of the
+        // radius / of the k-th distance.  Those cases are reported (and counted against the ceiling) by the
+        // `#agree` case of the same query under the listed class `…:ball:ulp`; here the two clauses that
+        // would name the same loss a second time leave the same band free FOR THE BALL TREE ONLY.
+        let band = if F::TY == "f32" { 1e-6 } else { 4e-15 };
+        let miss_tol = if kind == Kind::Ball { s.tol.max(band) } else { s.tol };
+        let close_miss = |a: f64, b: f64| (a - b).abs() <= miss_tol * a.abs().max(b.abs());
         match what {
             Q::Knn(k) => {
                 ctx.require(out.len() == k.min(n), "count", &cls, || format!("{} points returned, min(k,n) = {} (k={}, n={})", out.len(), k.min(n), k, n));
@@ -443,7 +513,7 @@ fn query_case<F: Sc>(em: &mut Em, s: &Setup<F>, kind: Kind, q: &[F], qstrided: b
                 want.truncate(k.min(n));
                 let mut got = own_out.clone();
                 got.sort_by(|a, b| a.partial_cmp(b).unwrap());
-                ctx.require(got.len() == want.len() && got.iter().zip(&want).all(|(a, b)| a == b || close(*a, *b)), "true_k_nearest", &cls, || format!("returned distances {:?}, true k nearest {:?}", got, want));
+                ctx.require(got.len() == want.len() && got.iter().zip(&want).all(|(a, b)| a == b || close_miss(*a, *b)), "true_k_nearest", &cls, || format!("returned distances {:?}, true k nearest {:?}", got, want));
                 if out.is_empty() {
                     ctx.mark_trivial();
                 }
@@ -458,7 +528,7 @@ fn query_case<F: Sc>(em: &mut Em, s: &Setup<F>, kind: Kind, q: &[F], qstrided: b
                 let rw = r.wide();
                 for i in 0..n {
                     let d = own_all[i];
-                    if d < rw && !close(d, rw) {
+                    if d < rw && !close_miss(d, rw) {
                         ctx.require(seen[i], "inside_included", &cls, || format!("row {} at distance {} < radius {} missing", i, d, rw));
                     }
                     if d > rw && !close(d, rw) {
@@ -478,6 +548,20 @@ fn query_case<F: Sc>(em: &mut Em, s: &Setup<F>, kind: Kind, q: &[F], qstrided: b
             }
         }
     });
+    // Lp requests whose decision margin is below the comparison's `min_margin` are not compared with the
+    // model: counted here (same number the comparison reads off the response), bounded by `ceilings`
+    if well_formed && s.met.approx() && em.outs.len() > before {
+        em.count("lp:requests");
+        if let Some(m) = em.outs[before].split(" margin=~").nth(1) {
+            if let Ok(bits) = u64::from_str_radix(m.trim(), 16) {
+                if f64::from_bits(bits) < 1e-7 {
+                    em.count("lp:margin<1e-7");
+                } else {
+                    em.count("lp:compared");
+                }
+            }
+        }
+    }
     // success-like outcomes, for the coverage floors (conf "floors")
     if well_formed && em.outs.len() > before && em.outs[before].starts_with("ok") {
         em.count(&format!("ok:{}:{}", opn, kind.name()));
@@ -486,15 +570,25 @@ fn query_case<F: Sc>(em: &mut Em, s: &Setup<F>, kind: Kind, q: &[F], qstrided: b
         if s.default_form {
             em.count(&format!("ok:form:default:{}", kind.name()));
         }
+        if n > 512 {
+            em.count(&format!("ok:big:{}", kind.name()));
+        }
+        if s.pre > 0 {
+            em.count(&format!("ok:pre:{}", kind.name()));
+        }
+        if matches!(what, Q::Knn(k) if k > n + 2) {
+            em.count(&format!("ok:khuge:{}", kind.name()));
+        }
     }
 }
 
 /// the three kinds answer the same query interchangeably (oracle only)
-fn agree_case<F: Sc>(em: &mut Em, s: &Setup<F>, q: &[F], qstrided: bool, what: Q<F>) {
+fn agree_case<F: Sc>(em: &mut Em, s: &Setup<F>, q: &[F], ql: QLay, what: Q<F>) {
     if !(s.buildable() && q.len() == s.ncols()) {
         return;
     }
-    let ql = if qstrided { "strided" } else { "c" };
+    let qlay = ql;
+    let ql = qlay.name();
     let op = match what {
         Q::Knn(k) => format!("#agree knn {} qlay={} q={} k={}", s.head(), ql, list(q.iter().copied(), |x: F| x.hx()), k),
         Q::Range(r) => format!("#agree range {} qlay={} q={} r={}", s.head(), ql, list(q.iter().copied(), |x: F| x.hx()), r.hx()),
@@ -504,7 +598,7 @@ fn agree_case<F: Sc>(em: &mut Em, s: &Setup<F>, q: &[F], qstrided: bool, what: Q
         let mut canon: Vec<(Kind, String, Vec<usize>, Vec<f64>)> = vec![];
         let mut border = false;
         for kind in KINDS {
-            let r = std::panic::catch_unwind(std::panic::AssertUnwindSafe(|| run_real(s, kind, q, qstrided, what)));
+            let r = std::panic::catch_unwind(std::panic::AssertUnwindSafe(|| run_real(s, kind, q, qlay, what)));
             let c = match r {
                 Err(_) => ("panic".to_string(), vec![], vec![]),
                 Ok((Err(e), ..)) => (e, vec![], vec![]),
@@ -722,13 +816,24 @@ fn gen_metric(rng: &mut Rng, lattice: bool, tag: &str) -> Met {
 }
 
 /// malformed: bit 0 leaf size 0, bit 1 zero columns, bit 2 wrong query dimension (may coincide)
-fn scenario<F: Sc>(em: &mut Em, rng: &mut Rng, rows: &[Vec<f64>], d: usize, lattice: bool, tag: &'static str, met: Met, malformed: u8) {
+fn scenario<F: Sc>(em: &mut Em, rng: &mut Rng, rows: &[Vec<f64>], d: usize, lattice: bool, tag: &'static str, met: Met, malformed: u8, big: bool) {
     let n = rows.len();
     let ncols = if malformed & 2 != 0 { 0 } else { d };
     let pts: Array2<F> = Array2::from_shape_fn((n, ncols), |(i, j)| F::from64(rows[i][j]));
     let mut default_form = false;
     let leaf = if malformed & 1 != 0 {
         0
+    } else if big {
+        // the large clouds: leaf sizes of practical use (the default form among them)
+        match rng.below(4) {
+            0 => {
+                default_form = true;
+                16
+            }
+            1 => 24,
+            2 => 40,
+            _ => 64,
+        }
     } else {
         match rng.below(7) {
             0 => 1,
@@ -743,12 +848,15 @@ fn scenario<F: Sc>(em: &mut Em, rng: &mut Rng, rows: &[Vec<f64>], d: usize, latt
             _ => 1 + rng.below(3),
         }
     };
-    let lay = match rng.below(20) {
-        0..=9 => Lay::C,
-        10..=12 => Lay::F,
-        13..=16 => Lay::Strided,
-        _ => Lay::T,
+    let lay = match rng.below(22) {
+        0..=8 => Lay::C,
+        9..=11 => Lay::F,
+        12..=15 => Lay::Strided,
+        16..=18 => Lay::T,
+        _ => Lay::Rev,
     };
+    // one query in four is not the first one on its index
+    let pre = if rng.chance(1, 4) { 1 + rng.below(3) } else { 0 };
     // L1 / Linf on lattice points are computed exactly (tolerance 0).  L2 and the generic clouds go
     // through rounding sums / sqrt: the oracle (f64 on the widened coordinates) leaves free only what
     // the carrier's own rounding of the reduced distance can move: (d + 4) ulps of the carrier.  Lp
@@ -762,13 +870,19 @@ fn scenario<F: Sc>(em: &mut Em, rng: &mut Rng, rows: &[Vec<f64>], d: usize, latt
     } else {
         (ncols as f64 + 4.0) * eps
     };
-    let s = Setup { pts, met, leaf, tol, tag, lay, default_form };
+    let s = Setup { pts, met, leaf, tol, tag, lay, default_form, pre };
+    if pre > 0 {
+        em.count("pre>0");
+    }
+    if big {
+        em.count("big");
+    }
     em.count(&format!("lay:{}", lay.name()));
     if n > 36 {
         em.count("n>36");
     }
     let script = tree_case(em, &s);
-    let nq = if em.thorough() { 3 } else { 2 };
+    let nq = if big { 1 } else if em.thorough() { 3 } else { 2 };
     // scale of the cloud (query points of the huge / tiny streams live on the same scale)
     let unit: f64 = match tag {
         "huge" | "tiny" => rows.iter().flatten().map(|x| x.abs()).filter(|x| *x > 0.0).fold(f64::INFINITY, f64::min).min(1e300).max(1e-300),
@@ -807,7 +921,11 @@ fn scenario<F: Sc>(em: &mut Em, rng: &mut Rng, rows: &[Vec<f64>], d: usize, latt
         if malformed & 2 != 0 && malformed & 4 == 0 && rng.coin() {
             q.clear();
         }
-        let qstrided = rng.chance(1, 3);
+        let qstrided = match rng.below(6) {
+            0 | 1 => QLay::Strided,
+            2 => QLay::Rev,
+            _ => QLay::C,
+        };
         // k values: 0, 1, around n, beyond n
         let mut ks = vec![rng.below(n + 3)];
         match rng.below(5) {
@@ -820,6 +938,11 @@ fn scenario<F: Sc>(em: &mut Em, rng: &mut Rng, rows: &[Vec<f64>], d: usize, latt
         if em.thorough() {
             ks.push(rng.below(n + 3));
         }
+        // "all neighbours": k far beyond n (a result or heap pre-sized by k would overflow / exhaust memory)
+        if rng.chance(1, 3) {
+            ks.push(*rng.pick(&[usize::MAX, usize::MAX / 2 + 1, 1usize << 62, n + 1000]));
+            em.count("k:huge");
+        }
         // radii: 0, on / one ulp around inter-point distances, beyond the diameter, +inf
         let well = s.buildable() && q.len() == s.ncols();
         let dists: Vec<f64> = if well && n > 0 {
@@ -829,9 +952,11 @@ fn scenario<F: Sc>(em: &mut Em, rng: &mut Rng, rows: &[Vec<f64>], d: usize, latt
             vec![1.0]
         };
         let mut rs: Vec<F> = vec![];
-        for _ in 0..(if em.thorough() { 3 } else { 2 }) {
+        // large clouds: four radii, the first two exactly on a distance (a border defect behind a size
+        // threshold needs a point ON the radius)
+        for ri in 0..(if big { 4 } else if em.thorough() { 3 } else { 2 }) {
             let base = *rng.pick(&dists);
-            let r = match rng.below(9) {
+            let r = match if big && ri < 2 { 1 } else { rng.below(9) } {
                 0 => 0.0,
                 1 | 2 | 3 => base,
                 4 => {
@@ -869,24 +994,31 @@ fn scenario<F: Sc>(em: &mut Em, rng: &mut Rng, rows: &[Vec<f64>], d: usize, latt
     }
 }
 
-/// Open finding C07-l2-squared-distance-range (oracle only).  `L2Dist` compares SQUARED distances
-/// (`rdistance`, `dist_to_rdist = d^2`); for finite coordinates whose differences are beyond
-/// 2^64 (f32) / 2^512 (f64) the squares are +inf, below 2^-75 / 2^-537 they are 0, although every
-/// distance and the radius are representable.  Then all reduced distances tie, `rdist < r^2` is
-/// `inf < inf` or `0 < 0`, and every kind misses points strictly inside the radius / returns
-/// arbitrary "nearest" points; the ball tree returns no point at all for k nearest (`inf < inf`
-/// against `max_radius = inf`).  The stream consists of such inputs only; every failure of the
-/// statement on it is reported under the one clause `reduced_distance_in_range`.
+/// Open findings C07-l2-squared-distance-range and C07-lp-power-range (oracle only).  `L2Dist`
+/// compares SQUARED distances (`rdistance`, `dist_to_rdist = d^2`); for finite coordinates whose
+/// differences are beyond 2^64 (f32) / 2^512 (f64) the squares are +inf, below 2^-75 / 2^-537 they are
+/// 0, although every distance and the radius are representable.  Then all reduced distances tie,
+/// `rdist < r^2` is `inf < inf` or `0 < 0`, and every kind misses points strictly inside the radius /
+/// returns arbitrary "nearest" points; the ball tree returns no point at all for k nearest (`inf < inf`
+/// against `max_radius = inf`).  The same happens on ORDINARY data when only the radius is tiny
+/// (`radius_underflow`: 0 < r < 2^-537 / 2^-75, `r^2 = 0`, a stored query point at distance 0 is missed),
+/// and in `LpDist` when the p-th POWER of a coordinate difference leaves the range (f32, p = 6:
+/// differences beyond 2^21 or below 2^-25).  The stream consists of such inputs only; a failure of
+/// count / ascending / true-k-nearest / inside-included on it is reported under the one clause
+/// `reduced_distance_in_range`.  NOT masked (the unchanged code never does it): a panic, an error, a
+/// position out of range, coordinates that are not the batch row, a row returned twice, and - where
+/// the out-of-range value is +inf or the radius is 0 (`overflow`, `radius_underflow`) - a point strictly
+/// outside the radius.
 fn edge_case<F: Sc>(em: &mut Em, s: &Setup<F>, kind: Kind, q: &[F], what: Q<F>) {
     let op = match what {
         Q::Knn(k) => format!("#edge knn {} kind={} q={} k={}", s.head(), kind.name(), list(q.iter().copied(), |x: F| x.hx()), k),
         Q::Range(r) => format!("#edge range {} kind={} q={} r={}", s.head(), kind.name(), list(q.iter().copied(), |x: F| x.hx()), r.hx()),
     };
-    em.count(&format!("edge:{}", s.tag));
+    em.count(&format!("edge:{}:{}", s.met.name(), s.tag));
     em.case(op, move |ctx| {
-        let cls = format!("l2:{}:{}", s.tag, kind.name());
+        let cls = format!("{}:{}:{}", s.met.name(), s.tag, kind.name());
         let n = s.n();
-        let r = std::panic::catch_unwind(std::panic::AssertUnwindSafe(|| run_real(s, kind, q, false, what)));
+        let r = std::panic::catch_unwind(std::panic::AssertUnwindSafe(|| run_real(s, kind, q, QLay::C, what)));
         let out = match r {
             Ok((Ok(out), ..)) => out,
             Ok((Err(e), ..)) => {
@@ -899,13 +1031,22 @@ fn edge_case<F: Sc>(em: &mut Em, s: &Setup<F>, kind: Kind, q: &[F], what: Q<F>) 
             }
         };
         let qw: Vec<f64> = q.iter().map(|x| x.wide()).collect();
-        let own_all: Vec<f64> = s.pts.rows().into_iter().map(|r| own_dist(s.met, &qw, &wide_row(r))).collect();
+        let rows: Vec<Vec<f64>> = s.pts.rows().into_iter().map(wide_row).collect();
+        let own_all: Vec<f64> = rows.iter().map(|r| own_dist(s.met, &qw, r)).collect();
         let pos: Vec<usize> = out.iter().map(|(_, _, p)| *p).collect();
         if pos.iter().any(|p| *p >= n) {
             ctx.fail("coords_position", &cls, format!("position out of range in {:?}", pos));
             return String::new();
         }
+        let mut seen = vec![false; n];
+        for (bits, _, p) in &out {
+            let want: Vec<u64> = rows[*p].iter().map(|x| x.to_bits()).collect();
+            ctx.require(&want == bits, "coords_position", &cls, || format!("returned coordinates differ from batch row {}", p));
+            ctx.require(!seen[*p], "distinct", &cls, || format!("row {} returned twice", p));
+            seen[*p] = true;
+        }
         let close = |a: f64, b: f64| (a - b).abs() <= s.tol * a.abs().max(b.abs());
+        let strict_outside = s.tag != "underflow";
         let mut bad: Vec<String> = vec![];
         match what {
             Q::Knn(k) => {
@@ -933,7 +1074,11 @@ fn edge_case<F: Sc>(em: &mut Em, s: &Setup<F>, kind: Kind, q: &[F], what: Q<F>) 
                         bad.push(format!("row {} at distance {:e} < radius {:e} missing", i, d, rw));
                     }
                     if d > rw && !close(d, rw) && pos.contains(&i) {
-                        bad.push(format!("row {} at distance {:e} > radius {:e} returned", i, d, rw));
+                        if strict_outside {
+                            ctx.fail("outside_excluded", &cls, format!("row {} at distance {:e} > radius {:e} returned", i, d, rw));
+                        } else {
+                            bad.push(format!("row {} at distance {:e} > radius {:e} returned", i, d, rw));
+                        }
                     }
                 }
             }
@@ -946,14 +1091,16 @@ fn edge_case<F: Sc>(em: &mut Em, s: &Setup<F>, kind: Kind, q: &[F], what: Q<F>) 
 }
 
 /// inputs of `edge_case`: a small integer lattice scaled by 2^e with e beyond the range in which the
-/// square of a coordinate difference is a finite normal number
+/// square (L2) / the p-th power (Lp) of a coordinate difference is a finite normal number - from the
+/// first exponent at which SOME squares leave the range (the `huge` / `tiny` streams of the compared
+/// part end just below it) - and ordinary lattices with a radius whose square underflows
 fn edge_stream(em: &mut Em, rng: &mut Rng) {
-    fn go<F: Sc>(em: &mut Em, rng: &mut Rng, e: i32, tag: &'static str) {
+    fn go<F: Sc>(em: &mut Em, rng: &mut Rng, met: Met, e: i32, tag: &'static str) {
         let d = 1 + rng.below(3);
         let n = 2 + rng.below(7);
         let sc = pow2(e);
         let pts: Array2<F> = Array2::from_shape_fn((n, d), |_| F::from64(rng.range(-3, 3) as f64 * sc));
-        let s = Setup { pts, met: Met::L2, leaf: 1 + rng.below(3), tol: 1e-6, tag, lay: Lay::C, default_form: false };
+        let s = Setup { pts, met, leaf: 1 + rng.below(3), tol: 1e-6, tag, lay: Lay::C, default_form: false, pre: 0 };
         let q: Vec<F> = (0..d).map(|_| F::from64(rng.range(-4, 4) as f64 * sc)).collect();
         let k = 1 + rng.below(n);
         let r = F::from64((0.5 + rng.below(6) as f64) * sc);
@@ -962,24 +1109,65 @@ fn edge_stream(em: &mut Em, rng: &mut Rng) {
             edge_case(em, &s, kind, &q, Q::Range(r));
         }
     }
+    /// ordinary data, the query is a stored point, 0 < r with r^2 = 0 in the carrier
+    fn tiny_radius<F: Sc>(em: &mut Em, rng: &mut Rng, e: i32) {
+        let d = 1 + rng.below(3);
+        let n = 2 + rng.below(7);
+        let pts: Array2<F> = Array2::from_shape_fn((n, d), |_| F::from64(rng.range(-3, 3) as f64));
+        let s = Setup { pts, met: Met::L2, leaf: 1 + rng.below(3), tol: 1e-6, tag: "radius_underflow", lay: Lay::C, default_form: false, pre: 0 };
+        let q: Vec<F> = s.pts.row(rng.below(n)).to_vec();
+        let r = F::from64(pow2(e));
+        for kind in KINDS {
+            edge_case(em, &s, kind, &q, Q::Range(r));
+        }
+    }
     // the witness of the finding: 1-d points 1,2,3 (x 2^64, f32), query 0, radius 1.5 x 2^64
     {
         let sc = pow2(64);
         let pts: Array2<f32> = Array2::from_shape_vec((3, 1), vec![sc as f32, (2.0 * sc) as f32, (3.0 * sc) as f32]).unwrap();
-        let s = Setup { pts, met: Met::L2, leaf: 2, tol: 1e-6, tag: "overflow", lay: Lay::C, default_form: false };
+        let s = Setup { pts, met: Met::L2, leaf: 2, tol: 1e-6, tag: "overflow", lay: Lay::C, default_form: false, pre: 0 };
         for kind in KINDS {
             edge_case(em, &s, kind, &[0.0f32], Q::Range((1.5 * sc) as f32));
             edge_case(em, &s, kind, &[0.0f32], Q::Knn(1));
         }
     }
-    let rounds = if em.thorough() { 40 } else { 8 };
-    for _ in 0..rounds {
-        let j = rng.below(8) as i32;
-        match rng.below(4) {
-            0 => go::<f32>(em, rng, 64 + j, "overflow"),
-            1 => go::<f64>(em, rng, 512 + j, "overflow"),
-            2 => go::<f32>(em, rng, -76 - j, "underflow"),
-            _ => go::<f64>(em, rng, -540 - j, "underflow"),
+    // witness of the tiny-radius form: points (0,0),(1,0), query (0,0), r = 2^-600: row 0 (distance 0 < r) is missed
+    {
+        let pts: Array2<f64> = Array2::from_shape_vec((2, 2), vec![0.0, 0.0, 1.0, 0.0]).unwrap();
+        let s = Setup { pts, met: Met::L2, leaf: 1, tol: 1e-6, tag: "radius_underflow", lay: Lay::C, default_form: false, pre: 0 };
+        for kind in KINDS {
+            edge_case(em, &s, kind, &[0.0f64, 0.0], Q::Range(pow2(-600)));
+        }
+    }
+    // witness of the Lp form: f32, p = 6, 1-d points 1,2,3 (x 2^22), query 0, k = 1 / radius 1.5 x 2^22
+    {
+        let sc = pow2(22);
+        let pts: Array2<f32> = Array2::from_shape_vec((3, 1), vec![sc as f32, (2.0 * sc) as f32, (3.0 * sc) as f32]).unwrap();
+        let s = Setup { pts, met: Met::Lp(6.0), leaf: 2, tol: 1e-5, tag: "overflow", lay: Lay::C, default_form: false, pre: 0 };
+        for kind in KINDS {
+            edge_case(em, &s, kind, &[0.0f32], Q::Range((1.5 * sc) as f32));
+            edge_case(em, &s, kind, &[0.0f32], Q::Knn(1));
+        }
+    }
+    // the ten kinds of scenario in turn (every kind is reached on every seed: the coverage floors on
+    // `edge:*` cannot fail by chance)
+    let rounds = if em.thorough() { 60 } else { 20 };
+    for round in 0..rounds {
+        let which = round % 10;
+        let j = rng.below(1 << 20);
+        match which {
+            // L2: from the first exponent at which the square of the largest difference (7 x 2^e) overflows
+            0 => go::<f32>(em, rng, Met::L2, 59 + (j % 13) as i32, "overflow"),
+            1 => go::<f64>(em, rng, Met::L2, 506 + (j % 14) as i32, "overflow"),
+            2 => go::<f32>(em, rng, Met::L2, -63 - (j % 21) as i32, "underflow"),
+            3 => go::<f64>(em, rng, Met::L2, -511 - (j % 37) as i32, "underflow"),
+            4 => tiny_radius::<f32>(em, rng, -76 - (j % 60) as i32),
+            5 => tiny_radius::<f64>(em, rng, -538 - (j % 500) as i32),
+            // Lp, p = 6 (and 4.5): the p-th power of a difference overflows / underflows
+            6 => go::<f32>(em, rng, Met::Lp(6.0), 22 + (j % 9) as i32, "overflow"),
+            7 => go::<f64>(em, rng, Met::Lp(if j % 2 == 0 { 6.0 } else { 4.5 }), 230 + (j % 20) as i32, "overflow"),
+            8 => go::<f32>(em, rng, Met::Lp(6.0), -26 - (j % 6) as i32, "underflow"),
+            _ => go::<f64>(em, rng, Met::Lp(6.0), -181 - (j % 8) as i32, "underflow"),
         }
     }
 }
@@ -988,16 +1176,16 @@ fn edge_stream(em: &mut Em, rng: &mut Rng) {
 fn corpus(em: &mut Em) {
     // ball tree, k = 0 on a non-empty index
     let pts: Array2<f64> = Array2::from_shape_vec((3, 2), vec![0.0, 0.0, 1.0, 0.0, 0.0, 2.0]).unwrap();
-    let s = Setup { pts, met: Met::L2, leaf: 2, tol: 0.0, tag: "corpus", lay: Lay::C, default_form: false };
+    let s = Setup { pts, met: Met::L2, leaf: 2, tol: 0.0, tag: "corpus", lay: Lay::C, default_form: false, pre: 0 };
     let script = tree_case(em, &s);
     for kind in KINDS {
-        query_case(em, &s, kind, &[0.0, 0.0], false, Q::Knn(0), &script);
+        query_case(em, &s, kind, &[0.0, 0.0], QLay::C, Q::Knn(0), &script);
     }
-    agree_case(em, &s, &[0.0, 0.0], false, Q::Knn(0));
+    agree_case(em, &s, &[0.0, 0.0], QLay::C, Q::Knn(0));
     // (3,4) at radius 5 from the origin
     let pts: Array2<f64> = Array2::from_shape_vec((3, 2), vec![3.0, 4.0, 1.0, 1.0, 6.0, 8.0]).unwrap();
     for met in [Met::L2, Met::L1, Met::Linf] {
-        let s = Setup { pts: pts.clone(), met, leaf: 1, tol: 0.0, tag: "corpus", lay: Lay::C, default_form: false };
+        let s = Setup { pts: pts.clone(), met, leaf: 1, tol: 0.0, tag: "corpus", lay: Lay::C, default_form: false, pre: 0 };
         let script = tree_case(em, &s);
         let r = match met {
             Met::L2 => 5.0,
@@ -1005,15 +1193,15 @@ fn corpus(em: &mut Em) {
             _ => 4.0,
         };
         for kind in KINDS {
-            query_case(em, &s, kind, &[0.0, 0.0], false, Q::Range(r), &script);
+            query_case(em, &s, kind, &[0.0, 0.0], QLay::C, Q::Range(r), &script);
         }
-        agree_case(em, &s, &[0.0, 0.0], false, Q::Range(r));
+        agree_case(em, &s, &[0.0, 0.0], QLay::C, Q::Range(r));
     }
     // non-contiguous batch rows / query (Fortran order, strided and transposed views): the k-d tree
     // used to panic on `to_slice().expect("views should be contiguous")`
     let pts: Array2<f64> = Array2::from_shape_vec((4, 2), vec![0.0, 0.0, 3.0, 4.0, 1.0, 1.0, -2.0, 0.5]).unwrap();
-    for (lay, qstrided) in [(Lay::F, false), (Lay::Strided, false), (Lay::T, true), (Lay::C, true)] {
-        let s = Setup { pts: pts.clone(), met: Met::L2, leaf: 1, tol: 1e-12, tag: "corpus", lay, default_form: false };
+    for (lay, qstrided) in [(Lay::F, QLay::C), (Lay::Strided, QLay::C), (Lay::T, QLay::Strided), (Lay::C, QLay::Strided), (Lay::Rev, QLay::C), (Lay::C, QLay::Rev)] {
+        let s = Setup { pts: pts.clone(), met: Met::L2, leaf: 1, tol: 1e-12, tag: "corpus", lay, default_form: false, pre: 0 };
         let script = tree_case(em, &s);
         for kind in KINDS {
             query_case(em, &s, kind, &[0.5, 0.25], qstrided, Q::Knn(2), &script);
@@ -1024,8 +1212,133 @@ fn corpus(em: &mut Em) {
     }
 }
 
+/// large clouds (n above any plausible size threshold of a chunked / parallel / fast path: 520..1100,
+/// thorough up to 2100), integer lattices with mass ties and uniform clouds, dimension 1..3, practical
+/// leaf sizes, one query each (k around n/2, n, beyond; radii on a distance and random)
+fn big_stream(em: &mut Em, rng: &mut Rng) {
+    let clouds = if em.thorough() { 10 } else { 3 };
+    for i in 0..clouds {
+        let n = 520 + rng.below(if em.thorough() { 1580 } else { 580 });
+        let d = 1 + rng.below(3);
+        let lattice = i % 3 != 2;
+        let rows: Vec<Vec<f64>> = if lattice {
+            let w = 2 + rng.below(5) as i64;
+            (0..n).map(|_| (0..d).map(|_| rng.range(-w, w) as f64).collect()).collect()
+        } else {
+            (0..n).map(|_| (0..d).map(|_| (rng.unit() - 0.5) * 8.0).collect()).collect()
+        };
+        let met = *rng.pick(&[Met::L2, Met::L1, Met::Linf, Met::L2]);
+        let tag = if lattice { "lattice" } else { "uniform" };
+        if i % 2 == 1 {
+            scenario::<f32>(em, rng, &rows, d, lattice, tag, met, 0, true);
+        } else {
+            scenario::<f64>(em, rng, &rows, d, lattice, tag, met, 0, true);
+        }
+    }
+}
+
+/// `NearestNeighbour::from_batch` is a provided method of the trait: `from_batch_with_leaf_size(batch,
+/// 2usize.pow(4), dist_fn)`.  A probe implementation of the trait records the leaf size the provided
+/// method hands on; the model answers with `defaultLeaf`.
+fn default_probe(em: &mut Em) {
+    use std::sync::atomic::{AtomicUsize, Ordering};
+    static SEEN: AtomicUsize = AtomicUsize::new(usize::MAX);
+    #[derive(Debug)]
+    struct Probe;
+    impl NearestNeighbour for Probe {
+        fn from_batch_with_leaf_size<'a, F: linfa::Float, DT: Data<Elem = F>, D: 'a + Distance<F>>(&self, batch: &'a ArrayBase<DT, Ix2>, leaf_size: usize, dist_fn: D) -> Result<Box<dyn 'a + Send + Sync + linfa_nn::NearestNeighbourIndex<F>>, BuildError> {
+            SEEN.store(leaf_size, Ordering::SeqCst);
+            CommonNearestNeighbour::LinearSearch.from_batch_with_leaf_size(batch, leaf_size, dist_fn)
+        }
+    }
+    em.case_valid("default".to_string(), "default_leaf", |ctx| {
+        let pts: Array2<f64> = Array2::zeros((3, 2));
+        let built = Probe.from_batch(&pts, L2Dist);
+        ctx.require(built.is_ok(), "no_error_on_valid", "default_leaf", || "from_batch on a 3x2 batch is an error".to_string());
+        format!("ok leaf={}", SEEN.load(Ordering::SeqCst))
+    });
+}
+
+/// OUTSIDE the statement's quantifier (recorded, never a failure of the ball tree): `LpDist(p)` with
+/// `p < 1` is accepted by `LpDist::new` but is not a distance (`lp_half_not_triangle`: the triangle
+/// inequality fails), so the pruning of the ball tree is unsound for it and BallTree / LinearSearch
+/// may differ.  The linear scan needs no triangle inequality: its clauses are still required; a panic
+/// or an error of any kind is still a failure.  Disagreements of the trees are counted as
+/// `unpromised:lp<1:<kind>_differs`.
+fn unpromised_stream(em: &mut Em, rng: &mut Rng) {
+    let rounds = if em.thorough() { 60 } else { 12 };
+    for _ in 0..rounds {
+        let d = 2 + rng.below(2);
+        let n = 4 + rng.below(12);
+        let pts: Array2<f64> = Array2::from_shape_fn((n, d), |_| rng.range(-3, 3) as f64);
+        let p = *rng.pick(&[0.5, 0.25, 0.75]);
+        let s = Setup { pts, met: Met::Lp(p), leaf: 1 + rng.below(3), tol: 1e-9, tag: "plt1", lay: Lay::C, default_form: false, pre: 0 };
+        let q: Vec<f64> = (0..d).map(|_| rng.range(-4, 4) as f64 / 2.0).collect();
+        let k = 1 + rng.below(n);
+        let op = format!("#unpromised knn {} q={} k={}", s.head(), list(q.iter().copied(), |x: f64| x.hx()), k);
+        let mut differs: Vec<&'static str> = vec![];
+        em.case(op, |ctx| {
+            let cls = "unpromised:lp<1".to_string();
+            let qw = q.clone();
+            let rows: Vec<Vec<f64>> = s.pts.rows().into_iter().map(wide_row).collect();
+            let own_all: Vec<f64> = rows.iter().map(|r| own_dist(s.met, &qw, r)).collect();
+            let mut want = own_all.clone();
+            want.sort_by(|a, b| a.partial_cmp(b).unwrap());
+            want.truncate(k.min(n));
+            for kind in KINDS {
+                let r = std::panic::catch_unwind(std::panic::AssertUnwindSafe(|| run_real(&s, kind, &q, QLay::C, Q::Knn(k))));
+                match r {
+                    Err(_) => ctx.fail("no_panic", &cls, format!("{} panicked", kind.name())),
+                    Ok((Err(e), ..)) => ctx.fail("no_error_on_valid", &cls, format!("{} answered {}", kind.name(), e)),
+                    Ok((Ok(out), ..)) => {
+                        let mut got: Vec<f64> = out.iter().filter(|(_, _, p)| *p < n).map(|(_, _, p)| own_all[*p]).collect();
+                        got.sort_by(|a, b| a.partial_cmp(b).unwrap());
+                        let same = got.len() == want.len() && got.iter().zip(&want).all(|(a, b)| (a - b).abs() <= 1e-9 * a.abs().max(b.abs()));
+                        if kind == Kind::Linear {
+                            // the scan relies on no property of the distance
+                            ctx.require(same, "true_k_nearest", &cls, || format!("linear scan: {:?}, true {:?}", got, want));
+                        } else if !same {
+                            differs.push(kind.name());
+                        }
+                    }
+                }
+            }
+            String::new()
+        });
+        em.count("unpromised:lp<1");
+        for kn in differs {
+            em.count(&format!("unpromised:lp<1:{}_differs", kn));
+        }
+    }
+}
+
+/// ceilings on what the two masks may swallow (the counterpart of the coverage floors): the number of
+/// `#agree` cases classed `ulp` (open finding C07-balltree-ulp-pruning) relative to the number of
+/// agreement cases, and the number of Lp requests whose decision margin is below the comparison's
+/// `min_margin` (skipped by the comparison) relative to the Lp requests.  Unchanged tree, seeds 1..12:
+/// at most 0.5 % of the agreement cases resp. 8 % of the Lp requests (exact lattice ties that libm `pow` splits by an ulp).
+fn ceilings(em: &mut Em) {
+    if em.only.is_some() {
+        return;
+    }
+    let agree = *em.dist.get("agree").unwrap_or(&0);
+    let masked = em.oracle.iter().filter(|f| f.clause == "indices_agree" && f.class.ends_with(":ulp")).count() as u64;
+    let lp_all = *em.dist.get("lp:requests").unwrap_or(&0);
+    let lp_skip = *em.dist.get("lp:margin<1e-7").unwrap_or(&0);
+    let lim_mask = 6 + agree / 100;
+    let lim_skip = 6 + lp_all / 8;
+    em.count_n("ceiling:ulp_masked", masked);
+    em.case(format!("#ceiling ulp_masked={} of_agree={} limit={} lp_skipped={} of_lp={} limit={}", masked, agree, lim_mask, lp_skip, lp_all, lim_skip), |ctx| {
+        ctx.require(masked <= lim_mask, "mask_ceiling", "ulp", || format!("{} of {} agreement cases are masked as rounding-level ball-tree differences (ceiling {})", masked, agree, lim_mask));
+        ctx.require(lp_skip <= lim_skip, "mask_ceiling", "lp_margin", || format!("{} of {} Lp requests have a decision margin below 1e-7 and are not compared (ceiling {})", lp_skip, lp_all, lim_skip));
+        ctx.mark_trivial();
+        String::new()
+    });
+}
+
 pub fn run(em: &mut Em, rng: &mut Rng) {
     corpus(em);
+    default_probe(em);
     let clouds = if em.thorough() { 1400 } else { 170 };
     for _ in 0..clouds {
         let is32 = rng.chance(1, 4);
@@ -1038,10 +1351,13 @@ pub fn run(em: &mut Em, rng: &mut Rng) {
             0
         };
         if is32 {
-            scenario::<f32>(em, rng, &rows, d, lattice, tag, met, malformed);
+            scenario::<f32>(em, rng, &rows, d, lattice, tag, met, malformed, false);
         } else {
-            scenario::<f64>(em, rng, &rows, d, lattice, tag, met, malformed);
+            scenario::<f64>(em, rng, &rows, d, lattice, tag, met, malformed, false);
         }
     }
+    big_stream(em, rng);
     edge_stream(em, rng);
+    unpromised_stream(em, rng);
+    ceilings(em);
 }
